@@ -2,6 +2,8 @@ import GoRes.Model.Req
 import GoRes.Lemmas.Req
 import GoRes.Model.Json
 import GoRes.Generated.Facts
+import GoRes.Model.SvcApi
+import GoRes.Lemmas.SvcApi
 /-! # C07 — everything the service publishes is protocol-conformant
 
 Conformance is stated on the structure of what `process` publishes: every message is built
@@ -220,6 +222,75 @@ theorem static_responses_match :
     Generated.staticResponses.lookup "responseSuccess" = some (respResult b!"null" none) := by
   decide +kernel
 
+
+
+/-! ## publications made through the service API (`Model/SvcApi.lean`)
+
+`With`/`Resource` on any *valid* resource id — with or without a query part, whatever follows
+the `?` — then an event; `TokenReset`; `TokenEventWithID`. -/
+
+open GoRes.SvcApi in
+/-- every message published from a `With` callback is on a NATS subject one may publish on;
+events are `event.<name>.<event>` for exactly the name part of the resource id, which is a
+valid resource name (no `?`, no wildcard, no empty token), and a reset names exactly it -/
+theorem with_publications_conformant (pats : List Str) (rid : Str) (act : Act) (l : List Pub)
+    (hv : Pattern.isValidRID rid = true) (h : withOp pats rid act = .pubs l) :
+    validName (parseRID rid).1 = true ∧
+    ∀ p ∈ l, natsSubject p.subj = true ∧
+      ((∃ name, p.subj = eventSubj (parseRID rid).1 name ∧ natsToken name = true) ∨
+       (p.subj = b!"system.reset" ∧ p.payload = b!"{\"resources\":" ++ jsonList [(parseRID rid).1] ++ [125])) := by
+  exact SvcApi.with_conformant pats rid act l hv h
+
+open GoRes.SvcApi in
+/-- an event with a reserved or malformed name publishes nothing -/
+theorem with_invalid_event_name_silent (pats : List Str) (rid name : Str)
+    (hn : Req.reserved.contains name = true ∨ Req.isValidPartB name = false) :
+    withOp pats rid (.custom name) = .err ∨ withOp pats rid (.custom name) = .panic := by
+  exact SvcApi.with_invalid_name pats rid name hn
+
+open GoRes.SvcApi in
+/-- `TokenReset` publishes only `system.tokenReset` with a concrete subject (no wildcard token,
+no empty token, no whitespace) and at least one token id; otherwise it publishes nothing -/
+theorem token_reset_conformant (subj : Str) (tids : List Str) (l : List Pub)
+    (h : tokenReset subj tids = .pubs l) :
+    (l = [] ∧ tids = []) ∨
+    (natsSubject subj = true ∧ tids ≠ [] ∧
+      l = [⟨b!"system.tokenReset", b!"{\"subject\":" ++ SvcApi.q subj ++ b!",\"tids\":" ++ jsonList tids ++ [125]⟩]) := by
+  exact SvcApi.token_reset_ok subj tids l h
+
+open GoRes.SvcApi in
+/-- `TokenEventWithID` publishes only on `conn.<cid>.token` for a connection id that is a single
+valid token; an unmarshalable token publishes nothing -/
+theorem token_event_conformant (cid tid : Str) (tok : Option Str) (l : List Pub)
+    (h : tokenEvent cid tid tok = .pubs l) :
+    natsToken cid = true ∧ (tok = none → l = []) ∧
+    ∀ p ∈ l, p.subj = b!"conn." ++ cid ++ b!".token" ∧ natsSubject p.subj = true := by
+  exact SvcApi.token_event_ok cid tid tok l h
+
+/-! ### non-vacuity of the service-API theorems: concrete calls satisfying their hypotheses -/
+
+/-- `with_publications_conformant`: a valid resource id with an (empty) query part, a custom event -/
+example : SvcApi.withOp SvcApi.patterns b!"svc.model.foo?" (.custom b!"upd") =
+      .pubs [⟨b!"event.svc.model.foo.upd", b!"{\"v\":1}"⟩] ∧
+    Pattern.isValidRID b!"svc.model.foo?" = true := by decide +kernel
+
+/-- `with_publications_conformant`: a query part containing wildcard characters, a reset -/
+example : SvcApi.withOp SvcApi.patterns b!"svc.model.foo?q=*.>" .reset =
+      .pubs [⟨b!"system.reset", b!"{\"resources\":[\"svc.model.foo\"]}"⟩] ∧
+    Pattern.isValidRID b!"svc.model.foo?q=*.>" = true := by decide +kernel
+
+/-- `with_invalid_event_name_silent`: a reserved event name on a matching resource panics -/
+example : Req.reserved.contains b!"change" = true ∧
+    SvcApi.withOp SvcApi.patterns b!"svc.static" (.custom b!"change") = .panic := by decide +kernel
+
+/-- `token_reset_conformant`: a wildcard subject is refused, a concrete one is published -/
+example : SvcApi.tokenReset b!"auth.>" [b!"t1"] = .panic := by decide +kernel
+example : SvcApi.tokenReset b!"auth.user" [b!"t1"] =
+    .pubs [⟨b!"system.tokenReset", b!"{\"subject\":\"auth.user\",\"tids\":[\"t1\"]}"⟩] := by decide +kernel
+
+/-- `token_event_conformant` -/
+example : SvcApi.tokenEvent b!"cid1" b!"t1" (some b!"{}") =
+    .pubs [⟨b!"conn.cid1.token", b!"{\"tid\":\"t1\",\"token\":{}}"⟩] := by decide +kernel
 
 /-! ## non-vacuity -/
 example : IsResponse false (withMeta [(b!"result", b!"null")] none) := .result _ none (by simp)
